@@ -79,7 +79,8 @@ def check(ctx, case):
     elif kind == "comp-default":
         call = lambda: o.get_linear_sequence_composition(w)
     else:
-        call = lambda: o.get_linear_sequence_composition(w, [list(g) for g in groups])
+        # each group is passed either as a list of letters or as the plain string itself
+        call = lambda: o.get_linear_sequence_composition(w, [g if case.get("as_str") else list(g) for g in groups])
     if w > N:
         ok, res = util.exc_name(call)
         ctx.check(not ok, "window-too-long", "%s with window %d on a %d-residue sequence answered instead of raising: %r" % (kind, w, N, np.asarray(res[1] if ok else 0).tolist() if ok else None), case)
@@ -152,6 +153,7 @@ def hyp_case(draw, big):
             g2 = "".join(draw(st.permutations(list(g))))
             groups.insert(draw(st.integers(0, len(groups))), g2.swapcase() if draw(st.booleans()) else g2)
         case["groups"] = groups
+        case["as_str"] = draw(st.booleans())
     if len(seq) <= 60:
         case["warm"] = draw(gens.warmups())
     return case
@@ -161,7 +163,7 @@ def _parts(tier):
     return [
         Part("enum-patterns-windows", "enum", check=check, cases=enum_cases, exhaustive=True, shards={"quick": 16, "thorough": 16}),
         Part("hyp-profiles", "hyp", check=check, strategy=lambda t: hyp_case(True),
-             examples={"quick": 3200, "thorough": 32000}, shards={"quick": 16, "thorough": 16}),
+             examples={"quick": 6400, "thorough": 64000}, shards={"quick": 16, "thorough": 16}),
     ]
 
 
